@@ -508,6 +508,13 @@ func (ev *evaluator) eval(fr *evalFrame, v ssa.Value, depth int) (interface{}, b
 			}
 		}
 		return nil, false
+	case *ssa.TypeAssert:
+		if !x.CommaOk {
+			return ev.eval(fr, x.X, depth+1)
+		}
+		return nil, false
+	case *ssa.MakeInterface:
+		return ev.eval(fr, x.X, depth+1)
 	case *ssa.Slice:
 		// a substring s[lo:hi] of an evaluated string
 		sv, ok := ev.eval(fr, x.X, depth+1)
@@ -1067,7 +1074,7 @@ func (ev *evaluator) runCountedFrame(fr0 *evalFrame, maxIter int) ([]interface{}
 	}
 	scalar := func(v interface{}) bool {
 		switch v.(type) {
-		case int64, string, bool, absPtr:
+		case int64, string, bool, absPtr, float64:
 			return true
 		}
 		return false
